@@ -135,7 +135,9 @@ class Ctx:
             raise
         except HarnessError:
             raise
-        except Exception as e:  # noqa
+        except (KeyboardInterrupt, SystemExit, GeneratorExit):
+            raise
+        except BaseException as e:  # noqa - incl. PanicException from compiled extensions
             if type(e).__module__.startswith("hypothesis"):
                 raise
             raise Violation(
@@ -366,9 +368,9 @@ def _run_one(sub, case, res: JobResult, tmpdir, excluded, focus, count=True):
         if isinstance(c, HarnessError):
             raise c
         viol = c
-    except Exception as e:  # noqa
+    except BaseException as e:  # noqa - incl. pyo3's PanicException (a BaseException) from compiled extensions
         # hypothesis control-flow exceptions must pass through untouched
-        if type(e).__module__.startswith("hypothesis"):
+        if type(e).__module__.startswith("hypothesis") or isinstance(e, GeneratorExit):
             raise
         c = classify_exception(e, sub.name)
         if isinstance(c, HarnessError):
